@@ -7,7 +7,7 @@ From BWTable Require Import Cells Fmt StrOrder Sort SortProofs SortSpec Limit.
 Open Scope Z_scope.
 
 (* the repairs applied to /repo so far (the model follows the CURRENT tree) *)
-Definition cur_reject_negative_limit : bool := false.
+Definition cur_reject_negative_limit : bool := true.    (* repo commit 0089c85 *)
 
 Fixpoint row_eqb (a b : row) : bool :=
   match a, b with
@@ -159,6 +159,12 @@ Definition e2e12_verdict (outs : list binding) (keys seen : list skey) (lim : op
                      end
                 else true in
       let v := verdict (rows_fmt_ok base) (cfg_ok && n_ok && rel && ex) ind12 in
+      (* 6 = the engine agrees with the model but returns a number of rows other than min(n, N) *)
+      let count_bad := match lim with
+                       | Some n => negb (Nat.eqb (length o) (Nat.min (Z.to_nat n) (length base)))
+                       | None => negb (Nat.eqb (length o) (length base))
+                       end in
+      if (N.eqb v 0 || N.eqb v 1) && count_bad then 6%N else
       match c with
       | Some ks =>
           let v1 := value_order_code keys fetched o v in
